@@ -521,7 +521,9 @@ class Evaluator:
             return a, pa
         return self._join(c, a, b), pc
 
-    def _assigned(self, stmts):
+    def _assigned(self, stmts, mutated=None):
+        """Names (and `self.<attr>`) rebound by the statements; with *mutated*, containers only mutated through a method
+        call are collected there instead (the name keeps referring to the same object)."""
         names = set()
         for s in stmts:
             for n in ast.walk(s):
@@ -541,19 +543,29 @@ class Evaluator:
                         for x in _target_names(t):
                             names.add(x)
                 elif isinstance(n, ast.Call) and isinstance(n.func, ast.Attribute) and n.func.attr in MUTATORS:
-                    # x.append(...) / self.items.append(...) change the container held in x / self.items
+                    # x.append(...) / self.items.append(...) change the *contents* of the container held in x / self.items
                     for x in _target_names(n.func.value) if isinstance(n.func.value, (ast.Attribute, ast.Subscript)) else \
                             ([n.func.value.id] if isinstance(n.func.value, ast.Name) else []):
-                        names.add(x)
+                        if mutated is not None:
+                            mutated.add(x)
+                        else:
+                            names.add(x)
         return names
 
     def _havoc(self, env, stmts, tag):
         env = dict(env)
-        for n in self._assigned(stmts):
+        only_mutated = set()
+        rebound = self._assigned(stmts, mutated=only_mutated)
+        for n in rebound:
             if isinstance(n, str):
                 env[n] = ("sym", "%s@%s" % (n, tag))
+        for n in only_mutated - rebound:
+            # mutated in place: an object with identity stays that object; a literal value we were tracking is no longer known
+            cur = env.get(n)
+            if isinstance(n, str) and cur is not None and cur[0] != "new" and cur[0] in ("list", "tuple", "dict", "op"):
+                env[n] = ("sym", "%s@%s" % (n, tag))
         # stored attribute/subscript facts rooted at something the loop body mutates become unknown
-        muts = self._assigned(stmts)
+        muts = rebound | only_mutated
         # facts about objects held in local names (e.g. h = wcs.to_header(); h["K"] = v) are rooted at that name
         holders = {}
         for name, val in env.items():
